@@ -195,9 +195,24 @@ def strip(eng, v, left=True):
 
 def count(eng, v, ch):
     parts = parts_of(v)
-    if not isinstance(ch, str) or len(ch) != 1 or not _atoms_exclude(eng, parts, ch):
+    if not isinstance(ch, str) or len(ch) != 1:
         raise Unsupported('structural count')
-    return sum(p.count(ch) for p in parts if isinstance(p, str))
+    if _atoms_exclude(eng, parts, ch):
+        return sum(p.count(ch) for p in parts if isinstance(p, str))
+    # atoms that may hold the character: countable position by position when the path fixes their length
+    from .engine import INT
+    tot, sym = 0, None
+    for p in parts:
+        if isinstance(p, str):
+            tot += p.count(ch)
+            continue
+        n = None if eng.pure else eng.fixed_length(p)
+        if n is None:
+            raise Unsupported('structural count')
+        for i in range(n):
+            t = z3.If(z3.SubString(p.z, i, 1) == z3.StringVal(ch), 1, 0)
+            sym = t if sym is None else sym + t
+    return tot if sym is None else Sym(sym + tot, INT)
 
 
 def startswith(eng, v, prefix):
